@@ -64,7 +64,10 @@ CONSTANTS
     ResizeAtCursor, \* terminal_size_changed: the cursor is where it was
                     \*   (FALSE: pinned tree - believed at the end of the line)
     YankAtCursor,   \* ^Y inserts at the cursor (FALSE: at the start)
-    DownRight       \* history-next shows entry index+1 (FALSE: off by one)
+    DownRight,      \* history-next shows entry index+1 (FALSE: off by one)
+    YankUnclamped   \* FALSE: ^Y goes through the max_line_length clamp like typed
+                    \*   text (TRUE: wrong rule - the kill buffer is spliced in
+                    \*   as it is: <text>(^U ^Y ^Y)* doubles the line every 3 bytes)
 
 VARIABLES
     ed,     \* the editor + channel + what session and terminal were given
@@ -198,6 +201,7 @@ Init0 == [line |-> <<>>, cur |-> 0, kill |-> <<>>, hist |-> <<>>, hidx |-> 0,
           \* ghosts for the properties
           nav |-> <<>>, navbad |-> FALSE, editlost |-> FALSE,
           prekill |-> <<>>, kybad |-> FALSE, overins |-> FALSE,
+          cap |-> MaxLen,     \* longest line the rules allow so far
           \* transient: what this step did
           bell |-> FALSE, cb |-> FALSE]
 
@@ -213,9 +217,12 @@ DeliverRaw(s, c) ==
     THEN [s EXCEPT !.out[Len(s.out)][2] = Append(@, c)]
     ELSE [s EXCEPT !.out = Append(@, <<"raw", <<c>>>>)]
 
-Insert(s, chars, at) ==
+\* clamp: the max_line_length rule applies (everything the USER can make
+\* longer goes through it; set_input and key handlers are the application's
+\* own text and are taken as they are - they raise the ghost `cap`)
+InsertC(s, chars, at, clamp) ==
     LET len  == Len(s.line)
-        over == MaxLen > 0 /\ len + Len(chars) > MaxLen
+        over == clamp /\ MaxLen > 0 /\ len + Len(chars) > MaxLen
         room == IF ~over THEN Len(chars)
                 ELSE IF MaxLen >= len THEN MaxLen - len
                 ELSE IF ClampRoom THEN 0
@@ -229,6 +236,8 @@ Insert(s, chars, at) ==
                                  SubSeq(s.line, at + 1, len),
                         !.cur = ncur,
                         !.overins = @ \/ (MaxLen > 0 /\ len >= MaxLen)]
+
+Insert(s, chars, at) == InsertC(s, chars, at, TRUE)
 
 MkChar(s, t) == <<t, IF UniqueIds THEN s.nid ELSE 0, IF s.echo THEN 0 ELSE 1>>
 Typed(s, t) == Insert([s EXCEPT !.nid = IF UniqueIds THEN @ + 1 ELSE @],
@@ -296,8 +305,8 @@ Do(s0, a) ==
     [] a = "end"   -> [s EXCEPT !.cur = Len(s.line)]
     [] a = "redraw" -> s
     [] a = "yank" ->
-        LET r == Insert([s EXCEPT !.prekill = <<>>], s.kill,
-                        IF YankAtCursor THEN s.cur ELSE 0)
+        LET r == InsertC([s EXCEPT !.prekill = <<>>], s.kill,
+                         IF YankAtCursor THEN s.cur ELSE 0, ~YankUnclamped)
         IN IF s.prekill # <<>> /\ ~r.bell /\
               (r.line # s.prekill[1] \/ r.cur # s.prekill[2])
            THEN [r EXCEPT !.kybad = TRUE] ELSE r
@@ -308,7 +317,8 @@ Do(s0, a) ==
                 IF HookChar(a) # "none" THEN Typed(s, HookChar(a)) ELSE Bell(s)
           [] kind = "false" -> Bell(s)
           [] kind = "repl" ->      \* the handler appends "+", cursor stays
-                [s EXCEPT !.line = Append(@, Plus)]
+                [s EXCEPT !.line = Append(@, Plus),
+                          !.cap = Max(@, Len(s.line) + 1)]
           [] kind = "sig" -> Deliver(s, <<"signal", <<>>>>)
 
 \* one decoded character in line mode
@@ -364,7 +374,8 @@ ApiEnabled(s, a) ==
       [] a = "unreg_bang" -> s.hook["bang"] # "none"
       [] a = "unreg_stab" -> s.hook["stab"] # "none"
 
-SetInput(s, l, pos) == [s EXCEPT !.pshow = <<>>, !.line = l, !.cur = pos]
+SetInput(s, l, pos) == [s EXCEPT !.pshow = <<>>, !.line = l, !.cur = pos,
+                                 !.cap = Max(@, Len(l))]
 
 Api(s0, a) ==
   LET s == Forget(Quiet(s0)) IN
@@ -425,6 +436,7 @@ Proj(s) == [line |-> s.line, cur |-> s.cur, kill |-> s.kill, hidx |-> s.hidx,
             nout |-> Len(s.out), ntty |-> Len(s.tty), pshow |-> s.pshow,
             nlast |-> IF s.out = <<>> THEN 0 ELSE Len(s.out[Len(s.out)][2]),
             pend |-> s.pend, wsel |-> s.wsel, nid |-> s.nid, hook |-> s.hook,
+            cap |-> s.cap,
             bell |-> s.bell, cb |-> s.cb]
 
 Lg == log' = IF KeepLog THEN Append(log, <<lbl', Proj(ed'), ctx'>>) ELSE log
@@ -550,6 +562,13 @@ KillYankRestores == ~ed.kybad
 
 \* max_line_length: nothing is inserted into a line that is already full
 InsertBounded == ~ed.overins
+
+\* max_line_length bounds the line whatever the user types, yanks or recalls:
+\* never longer than the limit or the longest line the application itself
+\* put there (hostile input costs bounded work: every key redraws the line)
+LineBounded == MaxLen > 0 => /\ Len(ed.line) <= ed.cap
+                             /\ Len(ed.kill) <= ed.cap
+                             /\ \A i \in 1..Len(ed.hist) : Len(ed.hist[i]) <= ed.cap
 
 \* the editor's idea of the cursor column is the terminal's
 NoSkew == ed.skew = 0
